@@ -85,7 +85,11 @@ Inductive ores := RUnit | RArg (a : option V) | RFound (a : option V) | RPairs (
 (* what a step makes visible to the client *)
 Inductive event := EInvoke (o : cop) | EReturn (r : ores) | EPair (e : K * V) | EScanEnd.
 
-Record frame := { fp : id; fidx : nat }.     (* internal deleteKey activation: node and child index *)
+(* one activation of internal deleteKey: the node, the child index, and the locks it took (the Go code's
+   deferred unlocks capture these pointers when the locks are taken) *)
+Record frame := { fp : id; fidx : nat; fl : option id; fc : option id }.
+Definition set_fl (f : frame) (x : id) : frame := {| fp := fp f; fidx := fidx f; fl := Some x; fc := fc f |}.
+Definition set_fc (f : frame) (x : id) : frame := {| fp := fp f; fidx := fidx f; fl := fl f; fc := Some x |}.
 
 Inductive pc :=
 | Idle
@@ -126,9 +130,9 @@ Definition target (s : st) (p : pc) : res (option (option id)) :=
   | InsWantChild _ _ c _ => Ok (Some (Some c))
   | InsWantSplitRight _ _ _ r => Ok (Some (Some r))
   | SeaWantChild _ _ c => Ok (Some (Some c))
-  | DelWantLeft _ ({| fp := p; fidx := j |} :: _) => x <- child_id (tr s) p (j - 1) ;; Ok (Some (Some x))
-  | DelWantChild _ ({| fp := p; fidx := j |} :: _) => x <- child_id (tr s) p j ;; Ok (Some (Some x))
-  | DelWantRight _ ({| fp := p; fidx := j |} :: _) => x <- child_id (tr s) p (j + 1) ;; Ok (Some (Some x))
+  | DelWantLeft _ (f :: _) => x <- child_id (tr s) (fp f) (fidx f - 1) ;; Ok (Some (Some x))
+  | DelWantChild _ (f :: _) => x <- child_id (tr s) (fp f) (fidx f) ;; Ok (Some (Some x))
+  | DelWantRight _ (f :: _) => x <- child_id (tr s) (fp f) (fidx f + 1) ;; Ok (Some (Some x))
   | DelWantLeft _ [] | DelWantChild _ [] | DelWantRight _ [] => Panic PIndex
   | CurWantNext _ nxt _ _ => Ok (Some (Some nxt))
   end.
@@ -199,16 +203,15 @@ Definition del_descend (o : cop) (stk : list frame) (n : id) (t : itree) : res p
   match find n t with
   | Some (INode _ cs) =>
     index <- search_le ltb (key_of o) (map fst cs) ;;
-    let stk' := {| fp := n; fidx := index |} :: stk in
+    let stk' := {| fp := n; fidx := index; fl := None; fc := None |} :: stk in
     Ok (if 0 <? index then DelWantLeft o stk' else DelWantChild o stk')      (* F5: left sibling first *)
   | _ => Panic PIndex end.
 
 (* the deferred unlocks of one deleteKey activation *)
-Definition unlock_frame_kids (t : itree) (f : frame) (with_right : bool) (l : list (id * tid)) : res (list (id * tid)) :=
-  c <- child_id t (fp f) (fidx f) ;;
-  let l := unlock c l in
-  l <- (if 0 <? fidx f then x <- child_id t (fp f) (fidx f - 1) ;; Ok (unlock x l) else Ok l) ;;
-  if with_right then x <- child_id t (fp f) (fidx f + 1) ;; Ok (unlock x l) else Ok l.
+Definition unlock_opt (x : option id) (l : list (id * tid)) : list (id * tid) :=
+  match x with Some y => unlock y l | None => l end.
+Definition unlock_frame_kids (f : frame) (right : option id) (l : list (id * tid)) : list (id * tid) :=
+  unlock_opt right (unlock_opt (fl f) (unlock_opt (fc f) l)).
 
 Definition set_child_i (i : nat) (c : itree) (cs : list (K * itree)) :=
   match nth_error cs i with Some (s, _) => set_nth i (s, c) cs | None => cs end.
@@ -267,7 +270,7 @@ Definition irebalance (f : frame) (t : itree) : res (itree * bool) :=
   | _ => Panic PIndex end.
 
 (* return through the deleteKey activations; parks only where a right sibling must be locked *)
-Fixpoint unwind (fuel : nat) (o : cop) (stk : list frame) (small : bool) (right_locked : bool)
+Fixpoint unwind (fuel : nat) (o : cop) (stk : list frame) (small : bool) (right : option id)
          (t : itree) (l : list (id * tid)) (fr : id) (tmx : option tid) : res out :=
   match fuel with 0 => Panic PFuel | S fuel' =>
   match stk with
@@ -279,17 +282,15 @@ Fixpoint unwind (fuel : nat) (o : cop) (stk : list frame) (small : bool) (right_
     mk t' (unlock r l) fr None Idle [EReturn RUnit]
   | f :: rest =>
     if negb small then
-      l' <- unlock_frame_kids t f right_locked l ;;
-      unwind fuel' o rest false false t l' fr tmx
+      unwind fuel' o rest false None t (unlock_frame_kids f right l) fr tmx
     else
       match find (fp f) t with
       | Some (INode _ cs) =>
-        if (fidx f + 1 <? length cs) && negb right_locked then
+        if (fidx f + 1 <? length cs) && (match right with None => true | Some _ => false end) then
           mk t l fr tmx (DelWantRight o stk) []
         else
-          l' <- unlock_frame_kids t f right_locked l ;;
           '(t', small') <- irebalance f t ;;
-          unwind fuel' o rest small' false t' l' fr tmx
+          unwind fuel' o rest small' None t' (unlock_frame_kids f right l) fr tmx
       | _ => Panic PIndex end
   end end.
 
@@ -378,18 +379,26 @@ Definition cstep (order : nat) (s : st) (me : tid) : sres :=
         end
       | _, _ => Panic PIndex end
     | SeaWantChild o p c => sea_descend o c t (unlock p l0) fr tm0
-    | DelWantLeft o stk => mk t l0 fr tm0 (DelWantChild o stk) []
+    | DelWantLeft o stk =>
+      match stk, tg with
+      | f :: rest, Some (Some x) => mk t l0 fr tm0 (DelWantChild o (set_fl f x :: rest)) []
+      | _, _ => Panic PIndex end
     | DelWantChild o stk =>
-      match stk with [] => Panic PIndex | f :: _ =>
-      c <- child_id t (fp f) (fidx f) ;;
-      match find c t with
-      | Some (ILeaf i nx es) =>
-        '(es', small) <- leaf_delete ltb (Nat.div2 order) (key_of o) es ;;
-        t' <- upd c (fun _ => Ok (ILeaf i nx es')) t ;;
-        unwind order (S (S (length stk))) o stk small false t' l0 fr tm0
-      | Some (INode _ _) => p <- del_descend o stk c t ;; mk t l0 fr tm0 p []
-      | None => Panic PIndex end end
-    | DelWantRight o stk => unwind order (S (S (length stk))) o stk true true t l0 fr tm0
+      match stk, tg with
+      | f :: rest, Some (Some c) =>
+        let stk1 := set_fc f c :: rest in
+        match find c t with
+        | Some (ILeaf i nx es) =>
+          '(es', small) <- leaf_delete ltb (Nat.div2 order) (key_of o) es ;;
+          t' <- upd c (fun _ => Ok (ILeaf i nx es')) t ;;
+          unwind order (S (S (length stk))) o stk1 small None t' l0 fr tm0
+        | Some (INode _ _) => p <- del_descend o stk1 c t ;; mk t l0 fr tm0 p []
+        | None => Panic PIndex end
+      | _, _ => Panic PIndex end
+    | DelWantRight o stk =>
+      match tg with
+      | Some (Some x) => unwind order (S (S (length stk))) o stk true (Some x) t l0 fr tm0
+      | _ => Panic PIndex end
     | CurRest leaf i n acc =>
       match n with
       | 0 => mk t (unlock leaf l0) fr tm0 Idle [EReturn (RPairs (rev acc))]      (* Close *)
@@ -454,3 +463,9 @@ Definition unfinished (s : st) (t : tid) : bool :=
   end.
 
 End Conc.
+
+Arguments Idle {K V}.
+Arguments RUnit {K V}.
+Arguments EScanEnd {K V}.
+Arguments Blocked {K V}. Arguments NoThread {K V}. Arguments Finished {K V}. Arguments Crash {K V}.
+Arguments CDelete {K V}. Arguments CSearch {K V}. Arguments CScan {K V}. Arguments CInsert {K V}. Arguments CUpdate {K V}.
